@@ -660,6 +660,27 @@ def envOverDefaults : List String := ["cfg = self.merge_config(cfg_env, cfg)"]
 def loadEnvVarsLoops : List String := ["env_var in env and isinstance(action, ActionConfigFile)", "env_var in env and isinstance(action, _ActionSubCommands)", "env_var in env and (not isinstance(action, (ActionConfigFile, _ActionSubCommands)))"]
 /-- added by later fixes: the settings check of `handle_subcommands` / the argv action (`checkSettings`) -/
 def settingsCheck : List String := ["if not isinstance(value, Namespace):\n    raise TypeError(f'Expected the settings of subcommand \"{key}\" to be a mapping, but got: {value!r}')", "if cfg.get(key) is not None:\n    _check_subcommand_settings(key, cfg.get(key))"]
+/-- EVERY statement of `get_subcommands`, in order (session 2).  `getSubCore` = statements 4-9 (`keys`, `expl`, the
+    `if/elif` = `pick`/`sub`/`cfg1`/`warn`, the removal = `cfg2`, `todo`), `getSub` = statement 10 (the `fail_no_subcommand` block) and the
+    return; statement 1 is the `.node _ .none _` case of `handle`/`sweep`/`checkReq`; `prefix` is the recursion into the section -/
+def bodyGetSubcommands : List String := ["if parser._subcommands_action is None:\n    return (None, None)", "action = parser._subcommands_action", "require_single = single_subcommand.get()", "subcommand_keys = [k for k in action.choices.keys() if isinstance(cfg.get(prefix + k), Namespace)]", "subcommand = None", "dest = prefix + action.dest", "if dest in cfg and cfg.get(dest) is not None:\n    subcommand = cfg[dest]\nelif len(subcommand_keys) > 0 and (fail_no_subcommand or require_single):\n    cfg[dest] = subcommand = subcommand_keys[0]\n    if len(subcommand_keys) > 1:\n        warnings.warn(f'Multiple subcommand settings provided ({', '.join(subcommand_keys)}) without an explicit \"{dest}\" key. Subcommand \"{subcommand}\" will be used.')", "if subcommand and len(subcommand_keys) > 1:\n    for key in [k for k in subcommand_keys if k != subcommand]:\n        del cfg[prefix + key]", "if subcommand:\n    subcommand_keys = [subcommand]", "if fail_no_subcommand:\n    if subcommand is None and (not (fail_no_subcommand and action._required)):\n        return (None, None)\n    if subcommand is not None and subcommand not in action._name_parser_map:\n        raise NSKeyError(f'expected \"{dest}\" to be one of {{{','.join(action._name_parser_map)}}}, but got: {subcommand!r}.')\n    if action._required and subcommand not in action._name_parser_map:\n        available_subcommands = list(action._name_parser_map.keys())\n        if len(available_subcommands) <= 5:\n            candidate_subcommands_str = '{' + ','.join(available_subcommands) + '}'\n        else:\n            candidate_subcommands_str = '{' + ','.join(available_subcommands[:5]) + ', ...}'\n        raise NSKeyError(f'expected \"{dest}\" to be one of {candidate_subcommands_str}, but it was not provided.')", "return (subcommand_keys, [action._name_parser_map.get(s) for s in subcommand_keys])"]
+/-- `get_subcommand`: the FIRST of the returned names (`r.todo.head?` in `sweep` and `checkReq`) -/
+def bodyGetSubcommand : List String := ["subcommands, subparsers = _ActionSubCommands.get_subcommands(parser, cfg, prefix=prefix, fail_no_subcommand=fail_no_subcommand)", "return (subcommands[0] if subcommands else None, subparsers[0] if subparsers else None)"]
+/-- EVERY statement of `handle_subcommands`: `handle` (the call of `getSub`, the early return = empty `todo`), `handleEach` (the loop in
+    `zip` order = declaration order restricted to `todo`: `checkSettings`, `mergeLayer`, the recursion, `writeBack`) -/
+def bodyHandleSubcommands : List String := ["subcommands, subparsers = _ActionSubCommands.get_subcommands(parser, cfg, prefix=prefix, fail_no_subcommand=fail_no_subcommand)", "if not subcommands or not subparsers:\n    return", "for subcommand, subparser in zip(subcommands, subparsers):\n    subnamespace = None\n    key = prefix + subcommand\n    with parent_parsers_context(key, parser):\n        if env:\n            subnamespace = subparser.parse_env(defaults=defaults, _skip_validation=True)\n        elif defaults:\n            subnamespace = subparser.get_defaults(skip_validation=True)\n    if cfg.get(key) is not None:\n        _check_subcommand_settings(key, cfg.get(key))\n    if subnamespace is not None:\n        cfg[key] = subparser.merge_config(cfg.get(key) or Namespace(), subnamespace)\n    if subparser._subparsers is not None:\n        _ActionSubCommands.handle_subcommands(subparser, cfg, env, defaults, key + '.', fail_no_subcommand=fail_no_subcommand)"]
+/-- EVERY statement of `add_subcommand`: the two rejections (`wf`: a name differs from the subcommand key; level order), the
+    attributes handed down (env prefix → `subPrefix`; `default_env`, `parser_mode`), the name-parser map in which ALIASES are further
+    names of the same parser (in the model: a further entry of `choices` with the same sub-tree) -/
+def bodyAddSubcommand : List String := ["if parser._subparsers is not None:\n    raise ValueError('Multiple levels of subcommands must be added in level order.')", "if self.dest == name:\n    raise ValueError(f\"A subcommand name can't be the same as the subcommands dest: '{name}'.\")", "parser.prog = f'{self._prog_prefix} [options] {name}'", "parser.env_prefix = f'{self.env_prefix}{name}_'", "parser.default_env = self.parent_parser.default_env", "parser.parent_parser = self.parent_parser", "parser.parser_mode = self.parent_parser.parser_mode", "parser._error_handler = self.parent_parser._error_handler", "parser.exit_on_error = self.parent_parser.exit_on_error", "parser.logger = self.parent_parser.logger", "parser.subcommand = name", "aliases = kwargs.pop('aliases', ())", "help_arg = None", "if 'help' in kwargs:\n    help_arg = kwargs.pop('help')", "choice_action = self._ChoicesPseudoAction(name, aliases, help_arg)", "self._choices_actions.append(choice_action)", "self._name_parser_map[name] = parser", "for alias in aliases:\n    self._name_parser_map[alias] = parser", "return parser"]
+/-- EVERY statement of `add_subcommands`: `dest`/`required` = `SubHdr`, `required_args.add(dest)` = the `reqkey` check of `checkReq`,
+    `env_prefix = get_env_var(self)` = `subPrefix`; a second call is rejected by argparse (`super().add_subparsers`) -/
+def bodyAddSubcommands : List String := ["if 'description' not in kwargs:\n    kwargs['description'] = 'For more details of each subcommand, add it as an argument followed by --help.'", "default_config_files = self.default_config_files", "self.default_config_files = []", "subcommands: _ActionSubCommands = super().add_subparsers(dest=dest, **kwargs)", "self.default_config_files = default_config_files", "if required:\n    self.required_args.add(dest)", "subcommands._required = required", "subcommands.required = False", "subcommands.parent_parser = self", "subcommands.env_prefix = get_env_var(self)", "self._subcommands_action = subcommands", "return subcommands"]
+/-- the first line of every top-level statement of `_load_env_vars`: three loops in this order (`envCfgPart`, `envSubPart`,
+    `envOptPart` of `loadEnvC`); their tests and the subcommand branch are `loadEnvVarsLoops` / `envBranch` -/
+def loadEnvVarsSkeleton : List String := ["cfg = Namespace()", "actions = filter_default_actions(self._actions)", "for action in actions:", "for action in actions:", "for action in actions:", "self._apply_actions(cfg)", "return cfg"]
+/-- parameter lists with defaults: `fail_no_subcommand=True`, `prefix=''`, `required=True`, `dest='subcommand'` -/
+def signatures : List String := ["add_subcommands(self, required=True, dest='subcommand')", "get_subcommand(parser, cfg, prefix='', fail_no_subcommand=True)", "get_subcommands(parser, cfg, prefix='', fail_no_subcommand=True)", "handle_subcommands(parser, cfg, env, defaults, prefix='', fail_no_subcommand=True)"]
 end Shape
 
 end Jap.Subcmd
